@@ -10,25 +10,28 @@ def gen_histories(res, work, tier):
     plans = [("quick", "Gen_Lib_quick.cfg", None, None)] if tier == "quick" else \
         [("thorough", "Gen_Lib_thorough.cfg", None, None), ("sim", "Gen_Lib_sim.cfg", "num=4000", 10)]
     for name, cfg, sim, depth in plans:
+        raw = os.path.join(work, "gen_%s.out" % name)
         r = tlc("MC_Gen_Lib.tla", cfg, os.path.join(work, "gen_" + name), workers=(1 if sim else 8), timeout=3000, simulate=sim,
-                depth=depth, seed_=seed() if sim else None, heap="12g")
-        vals = prints(r["out"], "HIST")
-        if not vals:
-            raise ToolError("Gen_Lib produced nothing:\n" + r["out"][-2000:])
+                depth=depth, seed_=seed() if sim else None, heap="12g", out_file=raw)
         if not sim:
             res.add_tlc("gen:" + cfg, r)
+        import hashlib
         path = os.path.join(work, "hist_%s.ndjson" % name)
         seen = set()
         n = 0
         with open(path, "w") as f:
-            for v in vals:
+            for v in prints_file(raw, "HIST"):
                 s = json.dumps(v, separators=(",", ":"), sort_keys=True)
-                if s in seen:
+                h = hashlib.sha1(s.encode()).digest()
+                if h in seen:
                     continue
-                seen.add(s)
+                seen.add(h)
                 v["id"] = "%s:%d" % (name, n)
                 n += 1
                 f.write(json.dumps(v, separators=(",", ":")) + "\n")
+        os.remove(raw)
+        if n == 0:
+            raise ToolError("Gen_Lib produced nothing:\n" + r["out"][-2000:])
         outs.append((name, path, n))
     return outs
 
